@@ -41,6 +41,7 @@ func findingOf(vec string) string {
 
 const (
 	qtDir     = 0x80
+	qtSymlink = 0x02
 	dmDir     = 0x80000000
 	dmSymlink = 0x02000000
 	dmLink    = 0x01000000
@@ -131,8 +132,13 @@ func climbs(names []string, depth int) bool {
 }
 
 // probeClimbs applies climbs with the starting depth the unrepaired server
-// would use for the vector.
-func probeClimbs(p *Probe) bool {
+// would use for the vector. viaPrev: the probe starts from the fid kept by an
+// earlier probe, whose depth is not known (taken as 0).
+func probeClimbs(p *Probe, viaPrev bool) bool {
+	depth := p.Depth
+	if viaPrev {
+		depth = 0
+	}
 	switch p.Vec {
 	case "attach":
 		return climbs(p.Names, 0)
@@ -140,12 +146,11 @@ func probeClimbs(p *Probe) bool {
 		if len(p.Names) == 1 && strings.HasPrefix(p.Names[0], "/") {
 			return climbs(p.Names, 0)
 		}
-		if len(p.Base) == 0 && !p.Prev {
+		if len(p.Base) == 0 && !viaPrev {
 			return len(p.Names) == 1 && p.Names[0] != "" // renaming the root itself
 		}
-		return climbs(p.Names, p.Depth)
 	}
-	return climbs(p.Names, p.Depth)
+	return climbs(p.Names, depth)
 }
 
 type sess struct {
@@ -304,6 +309,7 @@ func RunCase(c *Case) error {
 		p := &c.Probes[i]
 		s.cur, s.curVec = i, p.Vec
 		err := s.probe(i, p)
+		e.restorePremise()
 		if err == nil {
 			if d := e.diffOutside(s.rootRemoved); len(d) > 0 {
 				err = s.viol("after %s the part of the jail outside the exported root %s differs from its snapshot:\n    %s", p.brief(), rootInJail, strings.Join(d, "\n    "))
@@ -382,7 +388,7 @@ func (s *sess) probe(i int, p *Probe) error {
 	fl := fb + 3             // link source
 	var base uint32
 	var baseQid ref9p.Qid
-	ownBase := false
+	ownBase, viaPrev := false, false
 	defer func() {
 		if ownBase {
 			s.clunk(fb)
@@ -393,7 +399,7 @@ func (s *sess) probe(i int, p *Probe) error {
 	// ---- starting fid
 	if p.Vec != "attach" {
 		if p.Prev && s.prev != 0 {
-			base, baseQid = s.prev, s.prevQid
+			base, baseQid, viaPrev = s.prev, s.prevQid, true
 		} else {
 			r, err := s.rpc(&ref9p.Msg{Type: ref9p.Twalk, Fid: 0, Newfid: fb, Wname: p.Base})
 			if err != nil {
@@ -501,6 +507,9 @@ func (s *sess) probe(i int, p *Probe) error {
 		if success && !s.e.findInode(resQid.Path) {
 			return s.viol("%s succeeded with qid.path %d, but no object with that inode exists inside the exported root", describe(req), resQid.Path)
 		}
+		if success {
+			s.e.restorePremise()
+		}
 
 	case "rename":
 		st := rawc.NoChangeStat()
@@ -518,6 +527,10 @@ func (s *sess) probe(i int, p *Probe) error {
 		if success && p.Names[0] != "" && !s.e.findInode(baseQid.Path) {
 			return s.viol("%s succeeded, but the renamed object (inode %d) is no longer inside the exported root", describe(req), baseQid.Path)
 		}
+		if success {
+			// a relative link that was moved may point out of the root now
+			s.e.restorePremise()
+		}
 		res, resQid = base, baseQid
 	}
 
@@ -528,7 +541,7 @@ func (s *sess) probe(i int, p *Probe) error {
 			host = true
 		}
 	}
-	if host && (success || probeClimbs(p)) {
+	if host && (success || probeClimbs(p, viaPrev)) {
 		s.nontrivial = true
 		hx.NonTrivial(p.Vec, strings.Join(p.Names, "\x00"), p.Depth, p.Kind, success)
 	}
@@ -540,7 +553,7 @@ func (s *sess) probe(i int, p *Probe) error {
 	if d > 4 {
 		d = 4
 	}
-	hx.Label(fmt.Sprintf("vec=%s depth=%d climbs=%v outcome=%s", p.Vec, d, probeClimbs(p), outcome))
+	hx.Label(fmt.Sprintf("vec=%s depth=%d climbs=%v outcome=%s", p.Vec, d, probeClimbs(p, viaPrev), outcome))
 
 	// ---- accesses
 	if res != 0 {
